@@ -7,6 +7,7 @@ CONSTANTS
   Lookback <- TraceLookback
   MaxPast <- TraceMaxPast
   U <- TraceU
+  EverTooDeep <- TraceEverTooDeep
   OOT <- TraceOOT
   MFD <- TraceMFD
   Dev <- TraceDev
